@@ -173,6 +173,11 @@ impl Property for C17 {
             let bytes = writer::write(&m);
             let case = || json!({"tape": hex(tape), "domain": "B", "bytes": hex(&bytes[..bytes.len().min(4000)]), "model_summary": summary(&m)});
             ctx.label("domain:B");
+            // files longer than a read buffer of the command line go through it every other time
+            let sample = sample || (bytes.len() > 8192 && tape_sample(tape, 2));
+            if bytes.len() > 8192 {
+                ctx.label("file>8KiB");
+            }
             judge_bytes(&bytes, ctx, &case, sample)?;
             ctx.sample(bytes.len(), || json!({"domain": "B", "summary": summary(&m)}));
             Ok(())
